@@ -785,12 +785,6 @@ Corollary squash_count_per_pair g g' : wf_graph g -> squash_atoms g = Ok g' ->
 Proof. intros W H E. destruct (squash_count g g' W H) as [_ L]. rewrite E in L. exact L. Qed.
 
 (** ------------------------------------------------------------ a decidable sufficient test for wf_graph *)
-Fixpoint nodupz (l : list Z) : bool :=
-  match l with [] => true | x :: r => negb (existsb (Z.eqb x) r) && nodupz r end.
-Definition wf_graphb (g : graph) : bool :=
-  nodupz (node_keys g) &&
-  forallb (fun n => forallb (fun wa : Z * attrs => has_node g (fst wa) && has_edge g (fst wa) (nk n)
-                                                    && negb (Z.eqb (fst wa) (nk n))) (nadj n)) g.
 Lemma nodupz_NoDup l : nodupz l = true -> NoDup l.
 Proof.
   induction l as [|x r IH]; cbn; [constructor|]. intros H. apply andb_true_iff in H as [A B].
@@ -909,4 +903,107 @@ Lemma refuted_stale_hcount :
 Proof.
   split; [apply wf_graphb_sound; vm_compute; reflexivity|].
   eexists. split; [vm_compute; reflexivity|]. repeat split.
+Qed.
+
+(** ------------------------------------------------------------ totality under typed attributes *)
+(** every node carries list-valued `fragid` and `mapping` (what merge_graphs / resolve_disconnected_molecule
+    establish: SquashTotal.v), and every `bonding` edge attribute is a pair whose first entry is a string *)
+Definition tgood (a : attrs) : Prop :=
+  (exists l, aget (S "fragid") a = Some (VList l)) /\ (exists l, aget (S "mapping") a = Some (VList l)).
+Definition typed_g (g : graph) : Prop := forall i a, nattrs g i = Some a -> tgood a.
+Definition bondings_ok (l : list (Z * Z * pyval)) : Prop := forall e, In e l -> exists b, starts_squash (snd e) = Ok b.
+
+Lemma squash_fold_total alive l : forall gi sq,
+  wf_graph gi -> fwd sq -> typed_g gi ->
+  (forall k, has_node gi k = zmem k alive && negb (zmem k (sq_keys sq))) ->
+  (forall kv, In kv sq -> zmem (snd kv) alive = true) ->
+  (forall e, In e l -> zmem (fst (fst e)) alive = true /\ zmem (snd (fst e)) alive = true) ->
+  bondings_ok l ->
+  exists g' sq', fold_res squash_step l (gi, sq) = Ok (g', sq') /\ typed_g g'.
+Proof.
+  induction l as [|[[a b] bond] l IH]; intros gi sq W F T Hal Hv Hl Hb.
+  - exists gi, sq. split; [reflexivity|assumption].
+  - assert (Hl' : forall e, In e l -> zmem (fst (fst e)) alive = true /\ zmem (snd (fst e)) alive = true)
+      by (intros e He; apply Hl; now right).
+    assert (Hb' : bondings_ok l) by (intros e He; apply Hb; now right).
+    destruct (Hl (a, b, bond) (or_introl eq_refl)) as [Aa Ab]. cbn [fst snd] in Aa, Ab.
+    destruct (Hb (a, b, bond) (or_introl eq_refl)) as [isb Eb]. cbn [snd] in Eb.
+    cbn [fold_res]. destruct isb.
+    + set (keep := sq_pass sq a). set (rm := sq_pass sq b).
+      assert (Rk : sq_root (sq_fuel sq) sq a = Ok keep) by (apply sq_root_pass; [assumption|unfold sq_fuel; lia]).
+      assert (Rr : sq_root (sq_fuel sq) sq b = Ok rm) by (apply sq_root_pass; [assumption|unfold sq_fuel; lia]).
+      assert (Ak : zmem keep alive = true) by (apply (pass_pred (fun z => zmem z alive = true)); assumption).
+      assert (Ar : zmem rm alive = true) by (apply (pass_pred (fun z => zmem z alive = true)); assumption).
+      assert (Nk : zmem keep (sq_keys sq) = false)
+        by (apply not_true_iff_false; rewrite zmem_In; apply pass_not_key; assumption).
+      assert (Nr : zmem rm (sq_keys sq) = false)
+        by (apply not_true_iff_false; rewrite zmem_In; apply pass_not_key; assumption).
+      destruct (Z.eqb_spec keep rm) as [E|Hne].
+      * (* redundant pair *)
+        assert (St : squash_step (gi, sq) (a, b, bond) = Ok (gi, sq)).
+        { unfold squash_step. rewrite Eb. cbn [bind negb]. rewrite Rk, Rr. cbn [bind]. rewrite E, Z.eqb_refl. reflexivity. }
+        rewrite St. cbn [bind]. apply IH; assumption.
+      * assert (Hk : has_node gi keep = true) by (rewrite Hal, Ak, Nk; reflexivity).
+        assert (Hr : has_node gi rm = true) by (rewrite Hal, Ar, Nr; reflexivity).
+        assert (exists au, nattrs gi keep = Some au) as [au Hu]
+          by (apply has_node_gfind in Hk as [n Hn]; unfold nattrs; rewrite Hn; cbn; eauto).
+        assert (exists av, nattrs gi rm = Some av) as [av Hv']
+          by (apply has_node_gfind in Hr as [n Hn]; unfold nattrs; rewrite Hn; cbn; eauto).
+        destruct (T keep au Hu) as [[fu Fu] [mu Mu]]. destruct (T rm av Hv') as [[fv Fv] [mv Mv]].
+        destruct (squash_membership gi keep rm au av fu fv mu mv W Hne Hu Hv' Fu Fv Mu Mv sq a b bond Eb Rk Rr)
+          as (g2 & St & K2 & E2 & (A & NA & FA & MA & _) & O2).
+        rewrite St. cbn [bind].
+        assert (W2 : wf_graph g2) by (exact (wf_contracted gi keep rm g2 W Hne Hk Hr K2 E2)).
+        assert (Fr : ~ In rm (sq_keys sq)) by (rewrite <- zmem_In, Nr; discriminate).
+        assert (Fk : ~ In keep (sq_keys sq)) by (rewrite <- zmem_In, Nk; discriminate).
+        rewrite (sq_set_fresh rm keep sq Fr). apply IH; try assumption.
+        -- apply fwd_snoc; auto.
+        -- intros i ai Gi. destruct (Z.eq_dec i keep) as [->|Ni].
+           ++ rewrite NA in Gi. inversion Gi; subst ai. split; eauto.
+           ++ destruct (Z.eq_dec i rm) as [->|Nr'].
+              ** exfalso. assert (X : has_node g2 rm = true).
+                 { unfold nattrs in Gi. apply has_node_gfind. destruct (gfind rm g2); [eauto|discriminate]. }
+                 apply has_node_keys in X. rewrite K2 in X. apply filter_In in X as [_ X]. rewrite Z.eqb_refl in X. discriminate.
+              ** rewrite O2 in Gi by assumption. exact (T i ai Gi).
+        -- intros k. apply Bool.eq_iff_eq_true.
+           rewrite has_node_keys, K2, filter_In, <- has_node_keys, Hal. unfold sq_keys. rewrite map_app. cbn [map fst].
+           unfold zmem. rewrite existsb_app. cbn [existsb]. fold (zmem k (map fst sq)). fold (sq_keys sq).
+           rewrite orb_false_r, negb_orb, !andb_true_iff, !negb_true_iff. tauto.
+        -- intros kv Hin. apply in_app_or in Hin as [Hin|[<-|[]]]; [auto|exact Ak].
+    + assert (St : squash_step (gi, sq) (a, b, bond) = Ok (gi, sq))
+        by (unfold squash_step; rewrite Eb; reflexivity).
+      rewrite St. cbn [bind]. apply IH; assumption.
+Qed.
+
+(** [squash_total]: on a well-formed, typed graph squash_atoms ALWAYS returns (no KeyError / TypeError is
+    left), and the count theorem applies to what it returns *)
+Theorem squash_total g : wf_graph g -> typed_g g -> bondings_ok (edge_attr_items g squash_edge_attr) ->
+  exists g', squash_atoms g = Ok g' /\ typed_g g' /\ wf_graph g' /\
+             (length g' + length (squash_plan [] (bang_items g)) = length g)%nat.
+Proof.
+  intros W T B.
+  assert (Hal : forall k, has_node g k = zmem k (node_keys g) && negb (zmem k (sq_keys []))).
+  { intros k. cbn. rewrite andb_true_r. apply Bool.eq_iff_eq_true. rewrite has_node_keys, zmem_In. tauto. }
+  destruct (squash_fold_total (node_keys g) (edge_attr_items g squash_edge_attr) g [] W I T Hal) as (g' & sq' & Fd & T').
+  - intros kv [].
+  - intros e He. destruct (items_are_edges g _ e W He) as [A B']. rewrite !zmem_In, <- !has_node_keys. auto.
+  - exact B.
+  - assert (S : squash_atoms g = Ok g') by (unfold squash_atoms; rewrite Fd; reflexivity).
+    exists g'. split; [exact S|]. split; [exact T'|]. exact (squash_count g g' W S).
+Qed.
+
+(** the decidable forms evaluated by the check imply the hypotheses of [squash_total] *)
+Lemma bondings_okb_sound g : bondings_okb g = true -> bondings_ok (edge_attr_items g squash_edge_attr).
+Proof.
+  unfold bondings_okb. rewrite forallb_forall. intros H e He. specialize (H e He).
+  destruct (starts_squash (snd e)) as [b|]; [eauto|discriminate].
+Qed.
+Lemma typed_gb_sound g : typed_gb g = true -> typed_g g.
+Proof.
+  unfold typed_gb. rewrite forallb_forall. intros H i a G. unfold nattrs in G.
+  destruct (gfind i g) as [n|] eqn:Gi; [|discriminate]. cbn in G. inversion G; subst a.
+  specialize (H n (gfind_In _ _ _ Gi)).
+  destruct (aget (S "fragid") (na n)) as [[| | | | |l| |]|] eqn:Ef; cbv beta iota in H; try discriminate H.
+  destruct (aget (S "mapping") (na n)) as [[| | | | |l'| |]|] eqn:Em; cbv beta iota in H; try discriminate H.
+  split; [eexists; exact Ef|eexists; exact Em].
 Qed.
